@@ -56,6 +56,8 @@ type Zlisp struct {
 	// recursion depth of Compare and of the comment filter / source walker (see maxDataDepth)
 	compareDepth int
 	filterDepth  int
+	// nesting of EvalCallExpression: every level is a Run inside a Run on the Go stack (see maxEvalDepth)
+	evalDepth int
 
 	// sandboxed is set by NewZlispSandbox: later setup calls must not
 	// install anything that reaches the outside world, and the compiler
@@ -78,6 +80,12 @@ type Booter func(s interface{})
 // structures (compare, type-of, comment filter, code generation, JSON):
 // arrays and hashes are mutable and can be made to contain themselves.
 const maxDataDepth = 10000
+
+// maxEvalDepth bounds the nesting of EvalCallExpression (a Run inside a
+// Run on the Go stack, once per argument expression being evaluated).
+// Ordinary recursion of user functions passes through it too, so it is
+// far above what finishes in practical time.
+const maxEvalDepth = 100000
 
 const CallStackSize = 25
 const ScopeStackSize = 50
@@ -388,6 +396,15 @@ func (env *Zlisp) EvalCallExpression(expr Sexp) (Sexp, error) {
 		}
 		val, err, _ := env.LexicalLookupSymbol(sym, nil)
 		return val, err
+	}
+
+	// each argument expression is run by a nested Run, on the Go stack:
+	// data that holds a call to itself would otherwise recurse until the
+	// Go runtime kills the process.
+	env.evalDepth++
+	defer func() { env.evalDepth-- }()
+	if env.evalDepth > maxEvalDepth {
+		return SexpNull, &nestingTooDeep{fmt.Sprintf("call expressions nested more than %d levels deep (self-referential data?)", maxEvalDepth)}
 	}
 
 	gen := NewGenerator(env)
